@@ -19,7 +19,7 @@ CLAIM = dict(
           'formula term by term (κT_r(Pα_r + shift(Pα)_r)/Δσ_r − K − shift(K), K = ΔT/(Δσ_r+Δσ_(r+1))·(P − ΣΔσ), times the column thickness), which is the '
           'implicit half of the explicit centred T_ref advection; no spectral operator inside the tendencies clips an intermediate result. Also decided: the tracers that load the virtual temperature of the temperature variation (R·T′·(1+…)·∇ln pₛ) are exactly the tracers of the reference-temperature corrections, for the humidity-only and the cloud-moisture class (C04.7). Does not decide '
           'equality of the totals for two profiles numerically.'
-          ' Later additions: C04.7/C04.8 the T_ref half of the pressure-gradient force carries the same tracer loading (names and coefficients) as the T′ half (finding F7, fixed); C04.9 the explicit centred advection applied to T_ref is the plain two-interface average that the H matrix hard-codes, and it is the default vertical_advection.'),
+          ' Later additions: C04.7/C04.8 the T_ref half of the pressure-gradient force carries the same tracer loading (names and coefficients) as the T′ half (finding F7, fixed); C04.9 the explicit centred advection applied to T_ref is the plain two-interface average that the H matrix hard-codes, and it is the default vertical_advection. C04.10 the ω/p stencil and the explicit R·T′·∇ln pₛ force on every configuration branch (C05.2 instances re-filed).'),
     note=('Durran §8.6.5 (H matrix) as restated in the docstring of get_temperature_implicit_weights; numpy roll / tril / cumsum / diff semantics. Row vs column '
           'broadcasts (x[..., None] vs x) are kept distinct in the comparison.'),
     technique='dependence classification of call-site arguments (taint by role) + normal-form comparison of the H matrix with its documented formula',
